@@ -164,15 +164,31 @@ func c15Harness(maxLen int) Harness {
 					want = append(want, e)
 				}
 			}
-			sort.Slice(want, func(a, b int) bool { return want[a].uid < want[b].uid })
-			var wl, gl []string
-			for _, e := range want {
-				wl = append(wl, e.String())
+			// Entries are matched by (start instant, trip-id suffix) - the statement's notion of
+			// identity - not by the textual form of the UID, which is the implementation's choice;
+			// the UID must only be unique per identity and the output sorted by it.
+			key := func(e *c15Entry) string {
+				suffix := e.tripID
+				if len(suffix) >= 6 {
+					suffix = suffix[6:]
+				}
+				return fmt.Sprintf("%d|%s", e.start.Unix(), suffix)
 			}
+			strip := func(e *c15Entry) string {
+				s := e.String()
+				return s[strings.Index(s, " id="):]
+			}
+			wantByKey := map[string]string{}
+			for _, e := range want {
+				wantByKey[key(e)] = strip(e)
+			}
+			gotByKey := map[string]string{}
+			var gl []string
+			uidOf := map[string]string{}
 			for i := range j.Trips {
 				t := &j.Trips[i]
 				g := &c15Entry{uid: t.TripUID, tripID: t.TripID, route: t.RouteID, dir: t.DirectionID, start: t.StartTime, vehicle: t.VehicleID, lastObserved: t.LastObserved, markedPast: t.MarkedPast, numUpdates: t.NumUpdates}
-				s := g.String()
+				s := strip(g)
 				// the stop-level part is rendered from the journal's own stop times
 				if len(t.StopTimes) == 1 && t.StopTimes[0].StopID == "A" {
 					s = s[:strings.Index(s, " stop[A]")] + fmt.Sprintf(" stop[A]{lastObserved=%s markedPast=%s}", fmtTime(t.StopTimes[0].LastObserved), fmtTimePtr(t.StopTimes[0].MarkedPast))
@@ -182,12 +198,42 @@ func c15Harness(maxLen int) Harness {
 				if !t.IsAssigned {
 					s += " UNASSIGNED"
 				}
+				k := key(g)
+				if _, dup := gotByKey[k]; dup {
+					c.Fail("journal-accounting:duplicate-entry", "history %s, window %s: two entries for (start instant, id suffix) %s", hist, w.name, k)
+					return
+				}
+				if prev, ok := uidOf[t.TripUID]; ok && prev != k {
+					c.Fail("journal-accounting:uid-not-unique", "history %s, window %s: UID %q used for %s and %s", hist, w.name, t.TripUID, prev, k)
+					return
+				}
+				uidOf[t.TripUID] = k
+				if i > 0 && !(j.Trips[i-1].TripUID < t.TripUID) {
+					c.Fail("journal-accounting:not-sorted-by-uid", "history %s, window %s: UIDs %q, %q not strictly increasing", hist, w.name, j.Trips[i-1].TripUID, t.TripUID)
+					return
+				}
+				gotByKey[k] = s
 				gl = append(gl, s)
 			}
-			ws, gs := strings.Join(wl, "\n"), strings.Join(gl, "\n")
-			outcome.WriteString(gs + "\n--\n")
+			var keys []string
+			for k := range wantByKey {
+				keys = append(keys, k)
+			}
+			for k := range gotByKey {
+				if _, ok := wantByKey[k]; !ok {
+					keys = append(keys, k)
+				}
+			}
+			sort.Strings(keys)
+			var wl2, gl2 []string
+			for _, k := range keys {
+				wl2 = append(wl2, k+": "+wantByKey[k])
+				gl2 = append(gl2, k+": "+gotByKey[k])
+			}
+			ws, gs := strings.Join(wl2, "\n"), strings.Join(gl2, "\n")
+			outcome.WriteString(strings.Join(gl, "\n") + "\n--\n")
 			if ws != gs {
-				c.Fail("journal-accounting:"+c15DiffField(wl, gl), "history %s, window %s\n%s", hist, w.name, diffLines(ws, gs))
+				c.Fail("journal-accounting:"+c15DiffField(wl2, gl2), "history %s, window %s\n%s", hist, w.name, diffLines(ws, gs))
 				return
 			}
 		}
@@ -210,11 +256,11 @@ func c15Harness(maxLen int) Harness {
 }
 
 func c15DiffField(want, got []string) string {
-	if len(want) != len(got) {
-		return "selection"
-	}
 	for i := range want {
 		if want[i] != got[i] {
+			if strings.HasSuffix(want[i], ": ") || strings.HasSuffix(got[i], ": ") {
+				return "selection"
+			}
 			return firstDiffField(want[i], got[i])
 		}
 	}
